@@ -356,9 +356,13 @@ def correspond(ctx, proof_ok=True):
             ctx.violation(sig, 'model and implementation disagree on %s (spec checker could not decide or accepts)' % tag,
                           {'kind': 'broken-correspondence', 'item': 'C06.Model.run_case', 'call': c, 'impl_result': results[ci],
                            'coq_case': t, 'verdict': v}, False)
+    for ci, ((tag, c), r) in enumerate(zip(calls, results)):
+        if r.get('inputs_modified') or 'repeat_differs' in r:
+            direct_bad.append((ci, 'array call modifies its arguments / a second call with the same arrays differs (%s; repeat: %s)'
+                               % (r.get('inputs_modified'), r.get('repeat_differs'))))
     for ci, why in direct_bad:
         tag, c = calls[ci]
-        ctx.violation('C06:%s:roundtrip' % c['f'], why, {'kind': 'failing-input', 'call': c, 'impl_result': results[ci]}, True)
+        ctx.violation('C06:%s:%s' % (c['f'], 'inputs-modified' if 'modifies' in why else 'roundtrip'), why, {'kind': 'failing-input', 'call': c, 'impl_result': results[ci]}, True)
 
 
 def replay(ctx, rep):
